@@ -5,6 +5,7 @@ import GoRedisModel.Proofs.Interleave
 import GoRedisModel.Model.RefStore
 import GoRedisModel.Model.Lifecycle
 import GoRedisModel.Model.Discipline
+import GoRedisModel.Model.Lin
 /-! Line-protocol driver: one case per input line, one canonical result per output line.
 Built as the core-only executable `modeldriver`; the definitions it runs are the ones the theorems are about. -/
 open GoRedis
@@ -247,6 +248,12 @@ def handleLine (toks : List String) : String :=
   | "xserve" :: ts => runXServe ts
   | "life" :: ts => runLifeCase ts
   | "race" :: _ => racePrediction
+  | "linhist" :: ts =>
+    let ops : List (Lin.Op Bytes Bytes) := ts.filterMap fun t =>
+      match t.splitOn ":" with
+      | [c, i, r, q, p] => some { client := c.toNat!, inv := i.toNat!, res := r.toNat!, cmd := unhex q, out := unhex p }
+      | _ => none
+    if linCheck ops then "linearizable" else "not-linearizable"
   | "prep" :: "c12prog" :: ts => prepC12 ts
   | ["globall", n, ph] =>
     let pat := unhex ph
